@@ -552,7 +552,57 @@ class Evaluator:
                 then = e['arms'][0]['body'] if b0 else e['arms'][1]['body']
                 els = e['arms'][1]['body'] if b0 else e['arms'][0]['body']
                 return self.ev_if({'k': 'if', 'cond': e['scrut'], 'then': then, 'else': els, 'loc': e.get('loc')}, ctx)
+        if e.get('src') == 'Normal' and len(e['arms']) == 2 and not any(a.get('guard') for a in e['arms']):
+            # `match s { [] => a, [..] => b }` (or `_ => b`) is `if s.is_empty() { a } else { b }`
+            def empty_pat(p):
+                while p.get('k') in ('deref', 'derefpat'):
+                    p = p['sub']
+                return p.get('k') == 'slicepat' and not p.get('prefix') and not p.get('suffix') and p.get('slice') is None
+
+            def any_pat(p):
+                while p.get('k') in ('deref', 'derefpat'):
+                    p = p['sub']
+                if p.get('k') == 'wild':
+                    return True
+                return p.get('k') == 'slicepat' and not p.get('prefix') and not p.get('suffix') and p.get('slice') is not None and \
+                    (p['slice'] or {}).get('k') in ('wild', None)
+            p0, p1 = e['arms'][0]['pat'], e['arms'][1]['pat']
+            if (empty_pat(p0) and any_pat(p1)) or (empty_pat(p1) and any_pat(p0) and False):
+                sc_e = e['scrut']
+                cond = {'k': 'call', 'f': 'core::slice::<impl [T]>::is_empty', 'fa': 'core::slice::<impl [T]>::is_empty', 'name': 'is_empty', 'trait': None,
+                        'inherent': '[T]', 'crate': 'core', 'local': False, 'unsafe': False, 'hir_call': False, 'ga': [], 'args': [sc_e], 'ty': 'bool', 'loc': e.get('loc'), 'exp': False}
+                return self.ev_if({'k': 'if', 'cond': cond, 'then': e['arms'][0]['body'], 'else': e['arms'][1]['body'], 'loc': e.get('loc')}, ctx)
         sv, ts = self.ev(e['scrut'], ctx)
+        sv1_ = strip(sv)
+        if e.get('src') == 'Normal' and len(e['arms']) == 2 and isinstance(sv1_, tuple) and sv1_ and sv1_[0] == 'ifval' and \
+                isinstance(strip(sv1_[2]), tuple) and isinstance(strip(sv1_[3]), tuple) and {strip(sv1_[2])[0], strip(sv1_[3])[0]} == {'opt', 'adt'} and \
+                not any(a.get('guard') for a in e['arms']):
+            # the scrutinee is a checked access `if c { Some(x) } else { None }`: the match on it is the branch on c
+            names = [(a['pat'].get('name') if a['pat'].get('k') == 'variant' else ('_' if a['pat'].get('k') == 'wild' else None)) for a in e['arms']]
+            if set(names) <= {'Some', 'None', '_'} and 'Some' in names:
+                some_first = strip(sv1_[2])[0] == 'opt'
+                payload = strip(sv1_[2])[1] if some_first else strip(sv1_[3])[1]
+                res = {}
+                for a, nm in zip(e['arms'], names):
+                    sub = ctx.child()
+                    if nm == 'Some':
+                        for i_, sp_ in a['pat']['subs']:
+                            self.bind_pat(sp_, payload, sub)
+                    v_, t_ = self.ev(a['body'], sub)
+                    if self.is_err_value(v_) and not _ends_err(t_):
+                        t_ = cat(t_, ['ERR', 'Err value'])
+                    res['Some' if nm == 'Some' else 'None'] = (v_, t_)
+                if 'Some' in res and 'None' in res:
+                    (vs_, ts_), (vn_, tn_) = res['Some'], res['None']
+                    tt, tf = (ts_, tn_) if some_first else (tn_, ts_)
+                    vt, vf = (vs_, vn_) if some_first else (vn_, vs_)
+                    if self.is_err_value(vt) or strip(vt) == ('never',):
+                        val = vf
+                    elif self.is_err_value(vf) or strip(vf) == ('never',):
+                        val = vt
+                    else:
+                        val = ('ifval', sv1_[1], vt, vf)
+                    return (val, cat(ts, ['alt', ('if', sv1_[1]), [('true', tt), ('false', tf)]]))
         if e['src'] == 'ForLoopDesugar' and len(e['arms']) == 1:
             src = strip(sv)
             if isinstance(src, tuple) and src[0] == 'call' and src[1] == 'into_iter':
@@ -1148,7 +1198,7 @@ _PRIM_SIZES = {'u8': 1, 'i8': 1, 'bool': 1, 'u16': 2, 'i16': 2, 'u32': 4, 'i32':
 
 def _minmax_call(kind, a, b):
     """canonical min / max of two values (commutative: arguments ordered by their printed form)"""
-    x, y = sorted([strip(a), strip(b)], key=lambda v: vstr(v))
+    x, y = sorted([strip(a), strip(b)], key=lambda v: (vstr(v), repr(v)))
     return ('call', kind, 'core::cmp::Ord::' + kind, [x, y], (), 'Ord', None)
 
 
@@ -1160,8 +1210,9 @@ def _ifval_minmax(c, v1, v2):
     a, b = strip(c[2]), strip(c[3])
 
     def same(x, y):
-        # a mutable variable read twice in one expression is the same value
-        return vstr(x) == vstr(y)
+        # structural identity (the printed form omits type arguments: `T::max_encoded_len()` and `E::max_encoded_len()` print
+        # alike); a variable read twice yields the identical term
+        return strip(x) == strip(y)
     if same(v1, a) and same(v2, b):
         kind = 'min' if c[1] in ('Lt', 'Le') else 'max'
     elif same(v1, b) and same(v2, a):
@@ -1389,6 +1440,11 @@ def deinit(v, depth=0):
 
 def _simplify_bool(c):
     """`cfg!(..) || x`, `cfg!(..) && x` with the literal produced by cfg!"""
+    if isinstance(c, tuple) and c and c[0] == 'un' and c[1] == 'Not':
+        a = _simplify_bool(strip(c[2]))
+        if isinstance(a, tuple) and a[0] == 'lit' and isinstance(a[1], bool):
+            return ('lit', not a[1]) + tuple(a[2:])        # keeps the marker of a cfg!-produced literal
+        return c
     if isinstance(c, tuple) and c and c[0] == 'bin' and c[1] in ('Or', 'And'):
         l, r = _simplify_bool(strip(c[2])), _simplify_bool(strip(c[3]))
         for a, b in ((l, r), (r, l)):
